@@ -21,9 +21,12 @@ LET = 'abcdefghijklmnopqrstuvwxyz'
 
 
 def pool_name(k):
-    """k-th name of a pool that cannot collide with geometry or MINC names."""
+    """k-th name of a pool that cannot collide with geometry or MINC names.  One name in four
+    differs from another pool name only in its first character (q/r/s...), which is what the
+    default MINC matrix-block naming overwrites."""
     k %= 26 * 26 * 90
-    return 'q' + LET[(k // 90) % 26] + LET[(k // (90 * 26)) % 26] + '%2d' % (10 + k % 90)
+    first = 'qrst'[(k // 7) % 4] if k % 4 == 0 else 'q'
+    return first + LET[(k // 90) % 26] + LET[(k // (90 * 26)) % 26] + '%2d' % (10 + k % 90)
 
 
 class Model(object):
@@ -565,6 +568,10 @@ class GridMachine(Machine):
         nf = 2 + ch[0] % 5
         npl = 1 + ch[1] % 3
         vf = [rng.choice((0.05, 0.1, 0.2, 0.3, 0.5, 1.0, 2.0)) for _ in range(nf)]
+        if ch[0] % 3 == 0:
+            # fractions quoted to a few decimals: sum close to, but not exactly, one
+            vf = {2: [0.0999, 0.9], 3: [0.3333] * 3, 4: [0.25, 0.25, 0.25, 0.2499],
+                  5: [0.2, 0.2, 0.2, 0.2, 0.2001], 6: [0.1667] * 6}[nf]
         spacing = [rng.choice((10.0, 25.0, 50.0, 100.0)) for _ in range(rng.randint(1, npl))]
         if len(spacing) == 1 and rng.random() < 0.5:
             spacing = spacing[0]
@@ -577,10 +584,25 @@ class GridMachine(Machine):
         proc = [n for n in names if 0. < g.block[n].volume < amax]
         # precondition: generated matrix-block names are free and distinct (else minc refuses)
         new = [str(m) + n[len(str(m)):] for n in proc for m in range(1, nf)]
-        if len(set(new)) != len(new) or any(x in g.block for x in new) or not proc:
+        if not proc:
             return False
         if any(self.aliased(g.block[n].rocktype.name) for n in proc):
             return False
+        if len(set(new)) != len(new) or any(x in g.block for x in new):
+            # generated matrix-block names collide: minc must refuse loudly, never build a
+            # grid in which one block silently replaces another
+            if self.PHYSICS:
+                return False
+            try:
+                g.minc(vf, spacing, npl, arg)
+            except Exception:
+                self.ctx.probes['minc_refused_duplicate_names'] += 1
+                self.model = extract(g)      # what the refused call left is taken as is
+                self.geo_valid = False
+                return 'refused'
+            raise Violation('I5', 'minc accepted blocks whose matrix-block names collide (%r...) '
+                            'without an error' % (sorted(set(x for x in new if new.count(x) > 1
+                                                              or x in g.block))[:3],))
         before = self.model.copy()
         self.call(lambda: g.minc(vf, spacing, npl, arg), 'minc')
         # reference model of what MINC promises
@@ -678,6 +700,11 @@ class GridMachine(Machine):
         main = copy.deepcopy(g)
         host = main.block[hosts[ch[0] % len(hosts)].name]
         target = sub.blocklist[ch[3] % len(sub.blocklist)]
+        if ch[2] % 2:
+            # the connection may name the host by a stand-in block object (embed re-binds the
+            # connection's blocks by name)
+            host = self.tg.t2block(host.name, host.volume, host.rocktype, centre=host.centre)
+            self.ctx.probes['embed_standin_host'] += 1
         con = self.tg.t2connection([host, target], 1 + ch[3] % 3, [0.5, 0.25], 2.0, 0.0)
         total_before = sum(v[0] for v in self.model.b.values())
         res = self.call(lambda: main.embed(sub, con), 'embed')
